@@ -84,6 +84,25 @@ def Parser.parse (p : Parser) (source : Option Text := none) (offset : Option Na
       | none => { p with checksum := none, rawChecksum := none }
     .ok { p with trailingWhitespace := (g 11).getD [], comment := g 12, eol := (g 13).getD [] }
 
+/-- loop of `parseLines`: yield the current line while its offset is inside the source, then parse
+the next one.  `fuel` only makes the recursion structural; `parseLines` supplies enough of it
+(theorem `ERP.C18.parseLines_lossless` shows the loop always stops at the end of the source). -/
+def Parser.linesLoop : Nat → Parser → Except PyErr (List Parser × Parser)
+  | 0, p => .ok ([], p)
+  | fuel+1, p =>
+    if p.offset < p.source.length then do
+      let q ← p.parse
+      let (rest, fin) ← Parser.linesLoop fuel q
+      .ok (p :: rest, fin)
+    else .ok ([], p)
+
+/-- `parseLines(source, offset)`: the successive parser states it yields, and the state of the
+parser object once the generator is exhausted -/
+def Parser.parseLines (p : Parser) (source : Option Text := none) (offset : Option Nat := none) :
+    Except PyErr (List Parser × Parser) := do
+  let q ← p.parse source offset
+  Parser.linesLoop (q.source.length + 1) q
+
 /-- `fullText` -/
 def Parser.fullText (p : Parser) : Text :=
   p.leadingWhitespace ++ p.text ++ p.rawChecksum.getD [] ++ p.trailingWhitespace ++
